@@ -3,7 +3,8 @@
    the unchanged tree, which abandons the rest of the metric), promTypeForKind,
    promValueForDatum and datum.GetBucketsCumByMax.
    Executable definitions only.  Generic in the float type F: Collect performs
-   no float arithmetic, only the int64 -> float64 conversion [of_int]. *)
+   no float arithmetic, only the int64 -> float64 conversion [of_int] and the
+   comparison [f_leb O] by which GetBucketsCumByMax sorts the upper bounds. *)
 From V Require Export Base.Bytes Metrics.Buckets.
 Local Open Scope N_scope.
 
@@ -46,7 +47,7 @@ Fixpoint zip_labels (acc : list (bytes * bytes)) (keys vals : list bytes) : list
   end.
 
 Section Prom.
-Context {F : Type} (of_int : Z -> F) (fzero : F).
+Context {F : Type} (O : fops F) (of_int : Z -> F) (fzero : F).
 
 (* datum: Int | Float | String (exported as 0) | Buckets *)
 Inductive dval := DInt (z : Z) | DFloat (f : F) | DStr | DBuckets (d : @bdatum F).
@@ -83,7 +84,7 @@ Definition labels_of (c : cfg) (m : metric) (ls : labelset) : list (bytes * byte
 (* promValueForDatum / the three histogram getters *)
 Definition value_of (k : kind) (v : dval) : sval :=
   match k, v with
-  | KHistogram, DBuckets d => SH (b_count d) (b_sum d) (cum_by_max d)
+  | KHistogram, DBuckets d => SH (b_count d) (b_sum d) (cum_by_max O d)
   | _, DInt z => SV (of_int z)
   | _, DFloat f => SV f
   | _, _ => SV fzero
